@@ -7,6 +7,7 @@
 import AsamCmp.Generated
 import AsamCmp.Layout
 import AsamCmp.Builders
+import AsamCmp.Decoder
 namespace AsamCmp.GenChecks
 open AsamCmp
 
@@ -68,6 +69,15 @@ theorem enums_ok :
 
 /-- the real `encodeDlc`, evaluated on all 256 data lengths, is the ISO 11898 table of the model (C13) -/
 theorem dlc_ok : Generated.dlcTable = (List.range 256).map dlcOf := by decide +kernel
+
+/-- `SegmentedPacket::isValidSegmentType`, executed for all 16 (current, next) pairs, is the model's
+    `validNext` (C05, C06, C17) -/
+theorem validNext_ok :
+    Generated.validNextTable = ([0, 4, 8, 12].flatMap fun c => [0, 4, 8, 12].map fun n => (c, n, validNext c n)) := by decide
+
+/-- rules the dumper checked exhaustively on the real functions (payload type validity and packing,
+    byte swaps, TECMP header validity, segment bits) all hold -/
+theorem rules_ok : Generated.rules.all (fun r => r.2 == 1) = true ∧ Generated.rules.length = 5 := by decide
 
 /-- the library objects have no mutable static storage besides the allow-list (C19) -/
 theorem no_shared_state : Generated.mutableStatics = [] := by decide
